@@ -755,6 +755,29 @@ impl Prop for C20 {
             return;
         }
 
+        // an earlier artifact built and read on the same thread must not leak into this one (caches keyed too coarsely,
+        // state kept between calls)
+        if case.hash_seed % 5 == 1 {
+            x.begin_op(97);
+            let prior = x.path("earlier.ommx");
+            let r = x.sut(|| -> anyhow::Result<()> {
+                let mut b = Builder::new_archive_unnamed(prior.clone())?;
+                let mut inst = v1::Instance::default();
+                inst.sense = v1::instance::Sense::Maximize as i32;
+                let mut a = InstanceAnnotations::default();
+                a.set_title("earlier".to_string());
+                b.add_instance(inst, a)?;
+                b.build()?;
+                let mut art = Artifact::from_oci_archive(&prior)?;
+                let _ = art.get_instances()?;
+                Ok(())
+            });
+            if let Ok(Err(e)) = &r {
+                x.violate("C20:builder-error-without-hard-fault", format!("building and reading a one-layer archive without faults fails: {e:#}"));
+            }
+            x.count("probe.earlier_artifact_on_the_same_thread");
+        }
+
         // ---- build
         let mut model: Vec<ModelLayer> = vec![];
         let mut op = 0u32;
@@ -900,13 +923,19 @@ impl Prop for C20 {
         }
         x.count("probe.archive_verified");
 
-        // ---- a second builder at the same path must be refused and must leave the archive alone
+        // ---- a second builder at the same path, if refused, must leave the archive alone
         if case.hash_seed % 3 == 0 {
             x.begin_op(n_ops + 3);
             let r = x.sut(|| Builder::new_archive_unnamed(path.clone()).map(|_| ()));
             match r {
                 Err(p) => x.violate("C20:panic", format!("Builder::new_archive_unnamed on an existing path panicked: {p}")),
-                Ok(Ok(())) => x.violate("C20:existing-archive-overwritten", "a second builder was created on the path of an existing archive".into()),
+                // whether a builder may replace an existing file is not settled by the statement: only a *refused*
+                // builder must leave the archive as it was
+                Ok(Ok(())) => {
+                    // the archive now belongs to the second builder: nothing more to say about the first one
+                    x.count("probe.second_builder_accepted");
+                    return;
+                }
                 Ok(Err(_)) => {
                     x.count("probe.second_builder_refused");
                     let name = case.name.clone();
